@@ -44,6 +44,7 @@ func TestGateStress(t *testing.T) {
 		var mu sync.Mutex
 		var events []J
 		var seq, ids int64
+		samples := &sampleRegistry{}
 		logEv := func(e J) {
 			mu.Lock()
 			e["seq"] = atomic.AddInt64(&seq, 1)
@@ -53,7 +54,13 @@ func TestGateStress(t *testing.T) {
 		begin := func(kind string, v int) func(ok bool) {
 			id := atomic.AddInt64(&ids, 1)
 			logEv(J{"t": "b", "id": id, "kind": kind, "v": v})
-			return func(ok bool) { logEv(J{"t": "e", "id": id, "ok": ok}) }
+			return func(ok bool) {
+				e := J{"t": "e", "id": id, "ok": ok, "n": -1}
+				if kind == "acq" {
+					e["n"] = samples.take()
+				}
+				logEv(e)
+			}
 		}
 		script := []int{}
 		for i := r.between(2, 6); i > 0; i-- {
@@ -63,14 +70,14 @@ func TestGateStress(t *testing.T) {
 		var direct *strategy.PreciseStrategy
 		switch kind {
 		case "precise-direct":
-			direct = strategy.NewPreciseStrategy(lim)
+			direct = strategy.NewPreciseStrategyWithMetricRegistry(lim, samples)
 			lm = &strategyLimiter{direct}
 		default:
 			var st core.Strategy
 			if kind == "default+simple" {
-				st = strategy.NewSimpleStrategy(lim)
+				st = strategy.NewSimpleStrategyWithMetricRegistry(lim, samples)
 			} else {
-				st = strategy.NewPreciseStrategy(lim)
+				st = strategy.NewPreciseStrategyWithMetricRegistry(lim, samples)
 			}
 			sl := &ScriptedLimit{est: lim, script: script}
 			dl, err := limiter.NewDefaultLimiter(sl, 1, 1, 0, 10, &recStrategy{Strategy: st, log: begin}, nil, core.EmptyMetricRegistryInstance)
@@ -81,7 +88,7 @@ func TestGateStress(t *testing.T) {
 		}
 		// the constructor's SetLimit(estimate) has been logged; start the history after it
 		events = nil
-		w.write(J{"t": "reset", "trace": k, "kind": kind, "limit": lim, "id": 0, "v": 0, "ok": true})
+		w.write(J{"t": "reset", "trace": k, "kind": kind, "limit": lim, "id": 0, "v": 0, "ok": true, "n": -1})
 		g := r.between(2, 8)
 		if !thorough() && g > 5 {
 			g = 5
@@ -138,12 +145,40 @@ func TestGateStress(t *testing.T) {
 		wg.Wait()
 		for _, e := range events {
 			e["trace"] = k
-			for _, f := range []string{"id", "kind", "v", "ok"} {
+			for _, f := range []string{"id", "kind", "v", "ok", "n"} {
 				if _, has := e[f]; !has {
-					e[f] = map[string]any{"id": 0, "kind": "", "v": 0, "ok": true}[f]
+					e[f] = map[string]any{"id": 0, "kind": "", "v": 0, "ok": true, "n": -1}[f]
 				}
 			}
 			w.write(e)
 		}
 	}
 }
+
+// sampleRegistry is a metric registry whose listeners remember, per calling goroutine, the last sample added: the
+// strategies emit their in-flight sample from inside TryAcquire, on the caller's goroutine.
+type sampleRegistry struct{ last sync.Map }
+
+type sampleListener struct{ r *sampleRegistry }
+
+func (l *sampleListener) AddSample(v float64, tags ...string) { l.r.last.Store(goid(), int(v)) }
+
+func (r *sampleRegistry) take() int {
+	v, ok := r.last.LoadAndDelete(goid())
+	if !ok {
+		return -1
+	}
+	return v.(int)
+}
+func (r *sampleRegistry) RegisterDistribution(string, ...string) core.MetricSampleListener {
+	return &sampleListener{r}
+}
+func (r *sampleRegistry) RegisterTiming(string, ...string) core.MetricSampleListener {
+	return &sampleListener{r}
+}
+func (r *sampleRegistry) RegisterCount(string, ...string) core.MetricSampleListener {
+	return &sampleListener{r}
+}
+func (r *sampleRegistry) RegisterGauge(string, core.MetricSupplier, ...string) {}
+func (r *sampleRegistry) Start()                                           {}
+func (r *sampleRegistry) Stop()                                            {}
